@@ -160,11 +160,24 @@ func (x *Explorer) Run(entry *ssa.Function) *ExploreStats {
 				case "deadlock":
 					st.Inconclusive = append(st.Inconclusive, "deadlock: "+res.Msg)
 				}
+				// counterexamples are kept per assertion label AND per set of cover points the path
+				// passed before failing (up to 3 each, 12 per label): when the first few are engine
+				// artefacts that the native replay overrules, a genuinely different path to the same
+				// assertion still gets replayed
+				sig := ""
+				for _, ev := range res.Events {
+					if ev.Kind == "cover" {
+						sig += "|" + ev.Label
+					}
+				}
 				for _, ev := range res.Events {
 					switch ev.Kind {
 					case "violation", "panic":
-						if violSeen[ev.Label] < 3 {
+						if violSeen[ev.Label+sig] < 3 && violSeen[ev.Label] < 12 {
 							st.Violations = append(st.Violations, ev)
+							if sig != "" {
+								violSeen[ev.Label+sig]++
+							}
 						}
 						violSeen[ev.Label]++
 					case "known":
